@@ -8,7 +8,7 @@ def build(reg):
     specs = record.add_lifecycle(reg)
     specs += manifest.add_manifest(reg)
     specs += ublock.add_ublock(reg)  # the bodies behind the user-block contracts the life cycle calls (verified on their own, not registered as callees)
-    specs += [x for x in naming.add_naming(reg) if x.qual.endswith('_infer_name')]
+    specs += [x for x in naming.add_naming(reg, register=False) if x.qual.endswith('_infer_name')]
     return {
         "verify": specs,
         "lemmas": [],
